@@ -91,8 +91,22 @@ class Gen:
             elif d.startswith("const ") or d.startswith("type "):
                 kw = d.split(" ", 1)[0]
                 rel, name = [x.strip() for x in d[len(kw) + 1:].split("::", 1)]
+                evalit = name.endswith(" eval")
+                if evalit:
+                    name = name[:-5].strip()
                 it = self.src(rel).find_item(kw, name)
                 txt = re.sub(r"^(pub(\([a-z]+\))?\s+)?", "pub ", it["text"].strip())
+                if evalit:
+                    # R-CAST: a constant integer expression is replaced by its value (evaluated here, exactly)
+                    mm = re.match(r"(pub const \w+: (u8|u16|u32|u64|usize) = )(.*);$", txt, re.S)
+                    if not mm or not re.fullmatch(r"[0-9a-fA-Fx_\s<>+\-*()]+", mm.group(3)):
+                        raise AnchorLost("%s: const %s is not a plain integer expression: %s" % (rel, name, txt))
+                    val = eval(mm.group(3).replace("_", ""), {"__builtins__": {}}, {})
+                    bits = {"u8": 8, "u16": 16, "u32": 32, "u64": 64, "usize": 64}[mm.group(2)]
+                    if not (0 <= val < (1 << bits)):
+                        raise AnchorLost("%s: const %s overflows its type" % (rel, name))
+                    self.log.append({"rule": "R-CAST", "file": rel, "line": it["line"], "what": "const %s = `%s` replaced by its value %d" % (name, mm.group(3).strip(), val)})
+                    txt = "%s%d; // = %s" % (mm.group(1), val, " ".join(mm.group(3).split()))
                 self.emit(txt, kind="extracted", src=rel, sline=it["line"])
                 self.items.append({"kind": kw, "file": rel, "name": name, "line": it["line"]})
                 self.log.append({"rule": "R-VIS", "file": rel, "line": it["line"], "what": "%s %s made pub" % (kw, name)})
@@ -269,7 +283,8 @@ class Gen:
                     blk.append(lines[i])
                     i += 1
                 i += 1
-                directives.append(("proof", m.group(1), m.group(2), blk, i))
+                anchor = m.group(2).replace("\\n", "\n").replace("\\t", "\t") if m.group(2) else None
+                directives.append(("proof", m.group(1), anchor, blk, i))
             elif s == "" or s.startswith("// "):
                 i += 1
             else:
